@@ -212,7 +212,7 @@ Qed.
 
 Lemma run_body_flags : forall p, body_mono (run_body E C fault p).
 Proof.
-  induction p as [o | m chk k IHk | chk k IHk | b IHb chk k IHk | n k IHk | n k IHk];
+  induction p as [o | m chk k IHk | chk k IHk | b IHb chk rcv k IHk | n k IHk | n k IHk];
     intros h s r l h' s' H; cbn [run_body] in H.
   - destruct o; inversion H; subst; apply flags_le_refl.
   - destruct (h_stmt fault (Some m) h s) as [[e n0] s1] eqn:Es. apply h_stmt_flags in Es.
@@ -240,7 +240,9 @@ Proof.
       inversion H; subst. eapply flags_le_trans; [exact En|]. eapply flags_le_trans; [|exact Ek].
       subst s1'. destruct o0; try apply flags_le_refl. destruct entered; [apply flags_le_refl|].
       repeat split; cbn; auto.
-    + inversion H; subst; exact En.
+    + destruct rcv; [|inversion H; subst; exact En].
+      destruct (run_body E C fault k h1 s1) as [[[r1 l1] h2] s2] eqn:Ek. apply IHk in Ek.
+      inversion H; subst. eapply flags_le_trans; eassumption.
   - destruct (h_sp E C fault true (NUser n) h s) as [h1 s1] eqn:Es. apply h_sp_flags in Es.
     destruct h1; [inversion H; subst; exact Es|].
     destruct (run_body E C fault k None s1) as [[[r1 l1] h2] s2] eqn:Ek. apply IHk in Ek.
